@@ -579,7 +579,7 @@ class Engine:
         st.assume(z3.ForAll([k], z3.Implies(z3.Select(ty.dom(d.t), k),
                                             z3.And(0 <= pos(k), pos(k) < sq.len(o.t),
                                                    z3.Select(sq.arr(o.t), pos(k)) == k)),
-                            patterns=[pos(k)]))
+                            patterns=[pos(k), z3.Select(ty.dom(d.t), k)]))
         return o
 
     def bind(self, tgt: ast.expr, v, st: State, node):
@@ -1295,6 +1295,8 @@ class Engine:
                 if len(args) > 1:
                     d, v2 = self.unify(args[1], v, st, node)
                     return Val(d.ty, z3.If(has, v2.t, d.t))
+                if isinstance(ty.val, TOpt):  # values may themselves be None: d.get(k) cannot tell absent from None
+                    return Val(ty.val, z3.If(has, v.t, ty.val.none()))
                 o = TOpt(ty.val)
                 return Val(o, z3.If(has, o.some(v.t), o.none()))
             if name == "pop":
